@@ -392,7 +392,7 @@ Proof.
     { induction l as [|[t x] r IH]; intro Hd; [reflexivity|]. cbn [filter map snd].
       destruct (Hd t x (or_introl eq_refl)) as [[rp Hrp] Hc].
       assert (Hfl : flag s k x = match t_cmd x with Push k' => Nat.eqb k' k | _ => false end).
-      { unfold flag. destruct (t_cmd x) as [k'| | | |] eqn:Ec; try reflexivity. rewrite Hix. unfold init_state. cbn [ix].
+      { unfold flag. destruct (t_cmd x) as [k'| | | | |] eqn:Ec; try reflexivity. rewrite Hix. unfold init_state. cbn [ix].
         destruct (Hp _ Hc) as [k2 [E2 Hk2]]. inversion E2; subst k2.
         rewrite (nget_ix_init k' vals Hk2), Hrp. cbn. now rewrite andb_true_r. }
       rewrite Hfl. destruct (match t_cmd x with Push k' => Nat.eqb k' k | _ => false end); cbn [map snd]; rewrite IH; auto;
